@@ -172,6 +172,8 @@ func cliCheckMain(args []string) int {
 			case "both":
 				os.WriteFile(filepath.Join(dirA, "prog.vore"), []byte(prog), 0o644)
 				argv = append(argv, "-src", "prog.vore", "-com", prog)
+			case "srcmissing":
+				argv = append(argv, "-src", "nosuchprogram.vore")
 			}
 			glob := ""
 			switch nstr(cfg, "files") {
@@ -204,6 +206,17 @@ func cliCheckMain(args []string) int {
 			}
 			if nbool(cfg, "noout") {
 				argv = append(argv, "-no-output")
+			}
+			// for every other invocation the named output files exist already and hold more than any result:
+			// a written file holds exactly the new document, a file that is not written stays as it was
+			if h := hashOf([]any{argv}); h[len(h)-1]%2 == 1 {
+				stale := strings.Repeat("[1, 2, 3]\n", 3000)
+				if nbool(cfg, "jfile") {
+					os.WriteFile(filepath.Join(dirA, "out.json"), []byte(stale), 0o644)
+				}
+				if nbool(cfg, "fjfile") {
+					os.WriteFile(filepath.Join(dirA, "outf.json"), []byte(stale), 0o644)
+				}
 			}
 			before := readDir(dirA)
 			cmd := exec.Command(*binary, argv...)
@@ -305,6 +318,9 @@ func cliCheckMain(args []string) int {
 				}
 				if (n == "out.json" && wroteJ) || (n == "outf.json" && wroteF) {
 					continue
+				}
+				if c, was := before[n]; was && (n == "out.json" || n == "outf.json") && after[n] == c {
+					continue // an existing output file that this invocation does not write
 				}
 				add("fs", "unexpected file "+n, argv, e, got)
 				return
